@@ -71,6 +71,8 @@ def project_extra(slot, item):
     """kind-specific projection of the printed form (trusted, table driven; see lib/proj.py)"""
     if slot.get("k") == "dur":
         slot["parts"] = proj.duration_parts(slot.get("out", ""), item.get("lang", "en"))
+    elif slot.get("k") == "time":
+        slot["pr"] = proj.time_printed(slot.get("out", ""))
 
 
 def replay(rep, items, tag, match=None):
